@@ -567,12 +567,16 @@ pub fn run_c17(ctx: &mut Ctx) {
         rep.distinct(fnv(t.as_bytes()));
     }
     // every prefix (on char boundaries) of well-formed documents
-    for _ in 0..(budget / 20).max(5) {
+    let ndocs = if level == 0 { 1 } else { (budget / 20).max(5) };
+    for _ in 0..ndocs {
         let doc = gen_doc(&mut r, 1);
         let mut sink = PlainSink::new();
         let _ = write_doc(&doc, r.bool(), &mut sink);
         let text = sink.out;
-        for (i, _) in text.char_indices() {
+        for (k, (i, _)) in text.char_indices().enumerate() {
+            if level == 0 && k % 4 != 0 {
+                continue;
+            }
             c17_one(rep, &text[..i], &mut stats);
         }
         c17_one(rep, &text, &mut stats);
